@@ -66,6 +66,7 @@ type Exec struct {
 	// per-path state
 	globals    map[*ssa.Global]*Cell
 	syncMaps   map[*Cell]*MapV // contents of sync.Map values, by the cell holding the sync.Map struct
+	onceDone   map[*Cell]bool  // sync.Once values whose Do has run
 	pc         []*Term
 	trail      []*Decision
 	pos        int
